@@ -1,4 +1,5 @@
 import ScVerif.C17.ThreadLemmas
+import ScVerif.C17.Props
 /-!
 # C17 — property theorems about `executeEach`'s goroutines, for EVERY schedule
 
@@ -192,6 +193,107 @@ theorem C17_goroutines_end (C : Consumer σ ρ) (behs : List Beh) (sched : List 
       rw [(exec_static C sched _).2.2]; simp [Config.spawn, Config.init]
     unfold Config.pending
     omega
+
+/-- **C17_channel_log.** What the consumer can ever receive, under every schedule: the channel log
+holds at most one response per member (no duplicates), each tagged with the index of the member that
+produced it and being one of that member's own possible responses; and once every member goroutine
+has ended it is exactly the members' responses in some completion order: `arrivals outs order` for the
+vector `outs` of what the members returned and a permutation `order` of the member indices - the shape
+over which `C17_upTo`, `C17_all/most/any`, `C17_fast`, `C17_race`, `C17_indexing` are stated. -/
+theorem C17_channel_log (C : Consumer σ ρ) (behs : List Beh) (sched : List Tid) :
+    let c := exec C (Config.spawn C behs) sched
+    let outs := c.members.map fun m => m.resp.getD default
+    let order := c.hist.map (·.1)
+    order.Nodup
+    ∧ (∀ i r, (i, r) ∈ c.hist → ∃ b, behs[i]? = some b ∧ (r = b.normal ∨ b.onCancel = some r))
+    ∧ (c.members.all MPc.isDone = true →
+        outs.length = behs.length ∧ order.Perm (List.range outs.length) ∧ c.hist = arrivals outs order) := by
+  intro c outs order
+  have hh : HistInv c := histInv_exec C sched _ (histInv_init C behs behs.length)
+  have hbehs : c.behs = behs := (exec_static C sched _).1
+  have hlen : c.members.length = behs.length := by
+    rw [(exec_static C sched _).2.2]; simp [Config.spawn, Config.init]
+  have hget : ∀ i r, (i, r) ∈ c.hist → outs.getD i default = r := by
+    intro i r hin
+    rcases (hh.mem i r).mp hin with hm | hm <;>
+      simp [outs, List.getD_eq_getElem?_getD, List.getElem?_map, hm, MPc.resp]
+  refine ⟨hh.nodup, ?_, ?_⟩
+  · intro i r hin
+    rcases (hh.mem i r).mp hin with hm | hm
+    · have := hh.own i _ r hm rfl; rwa [hbehs] at this
+    · have := hh.own i _ r hm rfl; rwa [hbehs] at this
+  · intro hdone
+    have holen : outs.length = behs.length := by simp [outs, hlen]
+    refine ⟨holen, ?_, ?_⟩
+    · rw [List.perm_iff_count]
+      intro a
+      rw [hh.nodup.count, List.nodup_range.count]
+      have hiff : a ∈ order ↔ a ∈ List.range outs.length := by
+        rw [List.mem_range, holen, ← hlen]
+        constructor
+        · intro ha
+          obtain ⟨x, hx, hx1⟩ := List.mem_map.mp ha
+          obtain ⟨j, r⟩ := x
+          simp only at hx1
+          subst hx1
+          rcases (hh.mem j r).mp hx with hm | hm <;> exact lt_of_getElem? hm
+        · intro ha
+          have hm : c.members[a]? = some c.members[a] := List.getElem?_eq_getElem ha
+          have hd := all_done_not _ _ _ hm hdone
+          cases hpc : c.members[a] with
+          | done r =>
+            rw [hpc] at hm
+            exact List.mem_map.mpr ⟨(a, r), (hh.mem a r).mpr (Or.inr hm), rfl⟩
+          | start => rw [hpc] at hd; simp [MPc.isDone] at hd
+          | ran r => rw [hpc] at hd; simp [MPc.isDone] at hd
+          | sent r => rw [hpc] at hd; simp [MPc.isDone] at hd
+      by_cases ha : a ∈ order
+      · rw [if_pos ha, if_pos (hiff.mp ha)]
+      · have : ¬ a ∈ List.range outs.length := fun h => ha (hiff.mpr h)
+        rw [if_neg ha, if_neg this]
+    · simp only [arrivals, order, List.map_map]
+      conv => lhs; rw [← List.map_id c.hist]
+      apply List.map_congr_left
+      intro x hx
+      obtain ⟨i, r⟩ := x
+      simp only [id, Function.comp]
+      rw [hget i r hx]
+
+/-- **C17_upTo (end to end).** ExecuteUpTo under every schedule, with cancellation-aware members and
+the caller cancelling at any time: when the call returns, every member has returned; with `outs` the
+vector of what the members actually returned and `order` the order in which their responses were
+sent, the returned value is the one `C17_upTo` describes for `outs` and `order`: the error is the first
+failure in completion order iff the failures exceed the budget, and `results[i]` is member `i`'s
+message. -/
+theorem C17_upTo_end_to_end (allowed : Int) (behs : List Beh) (sched : List Tid) :
+    let C := upTo behs.length allowed
+    let c := exec C (Config.spawn C behs) sched
+    let outs := c.members.map fun m => m.resp.getD default
+    let order := c.hist.map (·.1)
+    ∀ x b, c.cons = .returned x b →
+      order.Perm (List.range outs.length)
+      ∧ x.err = (if (failures outs : Int) > allowed then (firstFailure (arrivals outs order)).map Err.member else none)
+      ∧ x.results = outs.map (·.msg) := by
+  intro C c outs order x b hx
+  have h1 := (C17_upTo_threads allowed behs sched).1 x b hx
+  obtain ⟨hb, hdone⟩ := h1
+  subst hb
+  have hlog := (C17_channel_log C behs sched).2.2 hdone
+  obtain ⟨holen, hperm, hhist⟩ := hlog
+  have href := (C17_threads_refine C behs sched).1 x true hx
+  have htaken := (href.2.2 rfl).1
+  have hxeq : x = C.result c.hist := by
+    have := href.1
+    rw [htaken, List.take_length] at this
+    exact this
+  have hspec := C17_upTo allowed outs order hperm
+  have e1 : x = (upTo behs.length allowed).result (arrivals outs order) := by
+    rw [hxeq]; exact congrArg C.result hhist
+  have e2 : upTo outs.length allowed = upTo behs.length allowed :=
+    congrArg (fun n => upTo n allowed) holen
+  refine ⟨hperm, ?_, ?_⟩
+  · rw [e1, ← e2]; exact hspec.1
+  · rw [e1, ← e2]; exact hspec.2.1
 
 /-- Why the buffer matters (the state of the code before the second `fix:` commit, `cap = 0`): with an
 unbuffered channel, Race over two succeeding members has a schedule after which both member functions
